@@ -47,6 +47,9 @@ func RunEval(t *testing.T, c *Case, s Sched, keepLog bool) *Obs {
 	sim := MakeSim(s, keepLog)
 	o := &Obs{Sched: s, Extra: map[string]string{}}
 	o.Sched.Policy = sim.Policy.Name()
+	if s.UseTape {
+		o.Sched.Policy = "tape"
+	}
 	var parts []string
 	body := func() {
 		env := newEnv(c)
